@@ -11,6 +11,7 @@ use discret::verif_hooks::configuration::Configuration;
 use discret::verif_hooks::database::authorisation_service::RoomAuthorisations;
 use discret::verif_hooks::database::graph_database::GraphDatabaseService;
 use discret::verif_hooks::database::room_node::RoomNode;
+use discret::verif_hooks::database::mutation_query::MutationQuery;
 use discret::verif_hooks::date_utils::verif_clock;
 use discret::verif_hooks::event_service::{Event, EventService};
 use discret::verif_hooks::security::{base64_encode, random32, Ed25519SigningKey};
@@ -21,7 +22,6 @@ use std::path::PathBuf;
 use std::sync::Arc;
 use vharness::common::*;
 
-const BASE: i64 = 1_700_000_000_000;
 const MODEL: &str = "ns { E1{ name:String } E2{ name:String } }";
 
 #[derive(Clone, Debug, PartialEq)]
@@ -210,7 +210,7 @@ fn gen_probes(rng: &mut Rng, author: u64, steps: &[Step], n: usize) -> Vec<(u64,
     (0..n).map(|_| (*rng.pick(&keys), rng.below(3), *rng.pick(&ds) + rng.range(-1, 1))).collect()
 }
 
-struct Pending { kind: String, author: u64, steps: Vec<Step>, ranks: Vec<Vec<u64>>, gm: HashMap<u64, u64>, probes: Vec<(u64, u64, i64)>, rid: [u8; 16],
+struct Pending { burst: bool, kind: String, author: u64, steps: Vec<Step>, ranks: Vec<Vec<u64>>, gm: HashMap<u64, u64>, probes: Vec<(u64, u64, i64)>, rid: [u8; 16],
                  head: Vec<i64>, fresh: Vec<i64>, chain: Vec<i64>, chain_dec: Vec<i64>, meta: serde_json::Value }
 
 /// one history through A (live), B (import after every step), F (import of the final definition)
@@ -246,7 +246,203 @@ async fn run_history(ctx: &mut Ctx, a: &mut Inst, b: &mut Inst, f: &mut Inst, ki
     let ranks = rank_uids(&uids);
     let nev: usize = steps.iter().map(|s| s.evs.len()).sum();
     let meta = json!({"steps": steps.len(), "events": nev, "fresh_verdict": fresh[0], "chain": chain.clone()});
-    Pending { kind: kind.into(), author: a.key, steps, ranks, gm: group_map(&gids), probes, rid, head, fresh, chain, chain_dec, meta }
+    Pending { burst: false, kind: kind.into(), author: a.key, steps, ranks, gm: group_map(&gids), probes, rid, head, fresh, chain, chain_dec, meta }
+}
+
+
+// ------------------------------------------------------------------ bursts: room mutations in flight together
+fn user_uid(res: &MutationQuery) -> Option<[u8; 16]> {
+    let ri = &res.mutate_entities[0];
+    let a = ri.sub_nodes.get("authorisations")?.first()?;
+    Some(a.sub_nodes.get("users")?.first()?.node_to_mutate.id)
+}
+async fn quiet_room(rx: &mut tokio::sync::broadcast::Receiver<Event>, rid: &[u8; 16]) -> Option<Arc<discret::Room>> {
+    // the last RoomModified once no further event arrives for a while
+    let mut last = None;
+    let mut idle = 0;
+    while idle < 40 {
+        let mut got = false;
+        while let Ok(e) = rx.try_recv() { if let Event::RoomModified(room) = e { if &room.id == rid { last = Some(room); got = true; } } }
+        if got { idle = 0; } else { idle += 1; tokio::time::sleep(std::time::Duration::from_millis(5)).await; }
+    }
+    last
+}
+/// creation (awaited), then `n` additions of distinct users to group 10 sent without awaiting one another:
+/// spawned mutate_raw calls, or one mutation_stream
+async fn run_burst(ctx: &mut Ctx, a: &mut Inst, f: &mut Inst, kind: &str, n: u64, stream: bool, probes_of: fn(u64, i64) -> Vec<(u64, u64, i64)>, d: i64) -> Pending {
+    let au = a.key;
+    let first = Step { date: d, evs: vec![Ev::Admin(au, true), Ev::Group(10), Ev::Right(10, 0, true, false), Ev::User(10, 2, true)] };
+    let mut rid = None;
+    let mut gids = HashMap::new();
+    let ap = apply_step(ctx, a, &mut rid, &mut gids, &first).await;
+    let rid = rid.unwrap();
+    let _ = wait_room(&mut a.rx, &rid, 200).await;
+    let mut uids = vec![ap.uids];
+    let mut head: Vec<i64> = first.evs.iter().map(|_| ap.ok as i64).collect();
+    let d2 = d + 4000;
+    verif_clock::set(d2);
+    let burst = Step { date: d2, evs: (0..n).map(|i| Ev::User(10, 9 + i, true)).collect() };
+    let txt = r#"mutate { sys.Room{ id:$room authorisations:[{ id:$g users:[{verif_key:$k enabled:true}] }] } }"#;
+    let params = |i: u64| { let mut p = Parameters::default(); p.add("room", base64_encode(&rid)).unwrap(); p.add("g", base64_encode(gids.get(&10).unwrap())).unwrap(); p.add("k", base64_encode(&ctx.vkey(9 + i))).unwrap(); p };
+    let mut results: Vec<Option<[u8; 16]>> = vec![];
+    if stream {
+        let (send, mut recv) = a.db.mutation_stream();
+        let ps: Vec<Parameters> = (0..n).map(|i| params(i)).collect();
+        let sender = tokio::spawn(async move { for p in ps { let _ = send.send((txt.to_string(), Some(p))).await; } });
+        for _ in 0..n { match recv.recv().await { Some(Ok(r)) => results.push(user_uid(&r)), _ => results.push(None) } }
+        let _ = sender.await;
+    } else {
+        let mut hs = vec![];
+        for i in 0..n { let db = a.db.clone(); let p = params(i); hs.push(tokio::spawn(async move { db.mutate_raw(txt, Some(p)).await })); }
+        for h in hs { match h.await { Ok(Ok(r)) => results.push(user_uid(&r)), _ => results.push(None) } }
+    }
+    // the stream answers in commit order, the spawned calls in spawn order: each result belongs to the key of its index
+    // only for the spawned variant; for the stream the i-th answer is the i-th request as well (one channel, in order)
+    for r in &results { head.push(r.is_some() as i64); }
+    uids.push(results);
+    let live = quiet_room(&mut a.rx, &rid).await.expect("live room event");
+    let probes = probes_of(au, d2);
+    head.extend(decisions(ctx, &live, &probes));
+    let nfin = strip(a.db.get_room_node(rid).await.unwrap().unwrap());
+    let fresh = match f.db.add_room_node(nfin).await {
+        Err(e) => vec![err_code(&e)],
+        Ok(()) => match wait_room(&mut f.rx, &rid, 200).await { Some(room) => { let mut o = vec![1]; o.extend(decisions(ctx, &room, &probes)); o } None => vec![0] },
+    };
+    let ranks = rank_uids(&uids);
+    let steps = vec![first, burst];
+    let meta = json!({"burst": n, "stream": stream, "fresh_verdict": fresh[0]});
+    Pending { burst: true, kind: kind.into(), author: au, steps, ranks, gm: group_map(&gids), probes, rid, head, fresh, chain: vec![], chain_dec: vec![], meta }
+}
+
+// ------------------------------------------------------------------ jumps: a peer that skipped versions
+fn jump_obs(ctx: &mut Ctx, old: &RM, cand: &RM, probes: &[(u64, u64, i64)]) -> Vec<i64> {
+    let old_real = ctx.room_node(old);
+    let mut ra = RoomAuthorisations { signing_key: Ed25519SigningKey::create_from(&[7u8; 32]), rooms: HashMap::new(), max_node_size: 2000 };
+    let known = match old_real.parse() { Ok(r) => r, Err(_) => return vec![-1] };
+    ra.rooms.insert(known.id, known.clone());
+    let mut c = ctx.room_node(cand);
+    let mut obs = match ra.prepare_room_node(Some(old_real), &mut c) {
+        Err(e) => vec![err_code(&e)],
+        Ok(false) => { let mut o = vec![0]; o.extend(decisions(ctx, &known, probes)); o }
+        Ok(true) => { let mut o = vec![1]; if let Ok(r) = c.parse() { o.extend(decisions(ctx, &r, probes)); } o }
+    };
+    let ra2 = RoomAuthorisations { signing_key: Ed25519SigningKey::create_from(&[7u8; 32]), rooms: HashMap::new(), max_node_size: 2000 };
+    let mut c2 = ctx.room_node(cand);
+    match ra2.prepare_room_node(None, &mut c2) {
+        Err(e) => obs.push(err_code(&e)),
+        Ok(_) => { obs.push(1); if let Ok(r) = c2.parse() { obs.extend(decisions(ctx, &r, probes)); } }
+    }
+    obs
+}
+/// honest multi-author histories (administrators adding administrators who add entries, user admins adding
+/// users): every earlier state -> every later state, directly
+fn jump_cases(rng: &mut Rng, ctx: &mut Ctx, out: &mut Out, nhist: usize, stats: &mut HashMap<String, u64>) {
+    // directed: key 1 founds the room, makes key 2 administrator, key 2 makes key 3 administrator, key 3 makes key 4
+    // administrator and user admin and gives key 5 a right as a user; every earlier version -> every later one
+    {
+        let d0 = BASE;
+        let mut next = 100;
+        let mut r = RM { id: 1, cdate: d0, date: d0, author: 1, aedges: vec![], anodes: vec![], gedges: vec![], gnodes: vec![] };
+        add_u(&mut r.anodes, &mut r.aedges, &mut next, 1, L_ADMIN, d0, 1, 1, true);
+        let mut g = AN { id: 10, date: d0, author: 1, cdate: d0, redges: vec![], rnodes: vec![], uedges: vec![], unodes: vec![], aedges: vec![], anodes: vec![] };
+        add_r(&mut g, &mut next, d0, 1, 0, true, false);
+        r.gedges.push(ED { src: 1, label: L_AUTHS, dest: 10, date: d0, author: 1 });
+        r.gnodes.push(g);
+        let mut states = vec![r.clone()];
+        for (i, (author, newk)) in [(1u64, 2u64), (2, 3), (3, 4)].iter().enumerate() {
+            let d = d0 + 2000 * (i as i64 + 1);
+            add_u(&mut r.anodes, &mut r.aedges, &mut next, 1, L_ADMIN, d, *author, *newk, true);
+            r.date = d; r.author = *author;
+            if *author == 3 {
+                let g = &mut r.gnodes[0];
+                add_u(&mut g.anodes, &mut g.aedges, &mut next, 10, L_UADMIN, d, 3, 4, true);
+                add_u(&mut g.unodes, &mut g.uedges, &mut next, 10, L_USERS, d, 3, 5, true);
+                g.date = d; g.author = 3;
+            }
+            states.push(r.clone());
+        }
+        let probes: Vec<(u64, u64, i64)> = vec![(1, 1, d0 + 9000), (2, 1, d0 + 9000), (3, 1, d0 + 9000), (4, 1, d0 + 9000), (5, 1, d0 + 9000), (3, 1, d0 + 3000)];
+        for p in 0..states.len() { for q in (p + 1)..states.len() {
+            let obs = jump_obs(ctx, &states[p], &states[q], &probes);
+            out.push(Case { kind: "jump:directed_admin_chain".into(), coq: format!("CJump {} {} {}", rm_coq(&states[p]), rm_coq(&states[q]), probes_coq(&probes)),
+                meta: json!({"from": p, "to": q, "jump": obs[0]}), obs });
+        } }
+    }
+    for _ in 0..nhist {
+        let mut r = rng.fork();
+        let creator = 1 + r.below(2);
+        let also = if r.chance(1, 3) { Some(3 - creator) } else { None };
+        let steps = 2 + r.below(5) as usize;
+        let h = honest(&mut r, ctx, 1, 100, 10, steps, creator, also, false);
+        let n = h.states.len();
+        let mut dates = h.dates.clone(); dates.push(h.dates[n - 1] + 5000);
+        for p in 0..n { for q in (p + 1)..n {
+            if h.states[p] == h.states[q] || (q > p + 1 && r.chance(1, 3)) { continue; }
+            let probes: Vec<(u64, u64, i64)> = (0..5).map(|_| (1 + r.below(6), r.below(3), *r.pick(&dates) + r.range(-1, 1))).collect();
+            let obs = jump_obs(ctx, &h.states[p], &h.states[q], &probes);
+            let fv = if obs[0] >= 0 && obs[0] <= 1 { obs[1 + 5 * probes.len()] } else { obs[1] };
+            *stats.entry(format!("jump={} fresh={}", obs[0], fv)).or_insert(0) += 1;
+            out.push(Case { kind: format!("jump:{}", if q == p + 1 { "next" } else { "skipping" }),
+                coq: format!("CJump {} {} {}", rm_coq(&h.states[p]), rm_coq(&h.states[q]), probes_coq(&probes)),
+                meta: json!({"from": p, "to": q, "jump": obs[0], "fresh": fv}), obs });
+        } }
+    }
+}
+
+async fn import_obs(ctx: &Ctx, inst: &mut Inst, n: RoomNode, rid: &[u8; 16], probes: &[(u64, u64, i64)], held: Option<Arc<discret::Room>>) -> Vec<i64> {
+    match inst.db.add_room_node(n).await {
+        Err(e) => vec![err_code(&e)],
+        Ok(()) => match wait_room(&mut inst.rx, rid, 100).await {
+            Some(room) => { let mut o = vec![1]; o.extend(decisions(ctx, &room, probes)); o }
+            None => { let mut o = vec![0]; if let Some(r) = held { o.extend(decisions(ctx, &r, probes)); } o }
+        },
+    }
+}
+/// the same on real instances: `a` creates the room, `b` is the second author (made administrator, or user
+/// admin, by `a`), `f` holds the first version only and receives the last one directly, `g` never saw the room
+async fn jump_e2e(ctx: &mut Ctx, a: &mut Inst, b: &mut Inst, f: &mut Inst, g: &mut Inst, out: &mut Out, t0: i64) {
+    for kind in ["admin_adds_admin_who_adds_admin", "admin_adds_admin_who_adds_group_with_user_admin_and_users"] {
+        let d = t0 + if kind == "admin_adds_admin_who_adds_admin" { 0 } else { 100_000 };
+        verif_clock::set(d);
+        let mut p = Parameters::default();
+        p.add("a", base64_encode(&ctx.vkey(a.key))).unwrap(); p.add("b", base64_encode(&ctx.vkey(b.key))).unwrap(); p.add("k2", base64_encode(&ctx.vkey(2))).unwrap();
+        let txt = r#"mutate { sys.Room{ admin:[{verif_key:$a}] authorisations:[{ name:"g" rights:[{entity:"*" mutate_self:true mutate_all:false}] users:[{verif_key:$k2}] }] } }"#;
+        let res = a.db.mutate_raw(txt, Some(p)).await.unwrap();
+        let rid = res.mutate_entities[0].node_to_mutate.id;
+        let gid = res.mutate_entities[0].sub_nodes.get("authorisations").unwrap()[0].node_to_mutate.id;
+        let n1 = strip(a.db.get_room_node(rid).await.unwrap().unwrap());
+        f.db.add_room_node(n1.clone()).await.expect("the first version is imported");
+        let held = wait_room(&mut f.rx, &rid, 200).await;
+        b.db.add_room_node(n1.clone()).await.expect("the first version is imported");
+        let _ = wait_room(&mut b.rx, &rid, 200).await;
+        {
+            verif_clock::set(d + 2000);
+            let mut p = Parameters::default();
+            p.add("room", base64_encode(&rid)).unwrap(); p.add("b", base64_encode(&ctx.vkey(b.key))).unwrap();
+            a.db.mutate_raw(r#"mutate { sys.Room{ id:$room admin:[{verif_key:$b}] } }"#, Some(p)).await.unwrap();
+            let n2 = strip(a.db.get_room_node(rid).await.unwrap().unwrap());
+            b.db.add_room_node(n2).await.expect("the second version is imported by the new administrator");
+            let _ = wait_room(&mut b.rx, &rid, 200).await;
+        }
+        verif_clock::set(d + 4000);
+        let mut p = Parameters::default();
+        p.add("room", base64_encode(&rid)).unwrap(); p.add("g", base64_encode(&gid)).unwrap(); p.add("k3", base64_encode(&ctx.vkey(3))).unwrap();
+        p.add("k4", base64_encode(&ctx.vkey(4))).unwrap();
+        let txt2 = if kind == "admin_adds_admin_who_adds_admin" { r#"mutate { sys.Room{ id:$room admin:[{verif_key:$k3}] authorisations:[{ id:$g users:[{verif_key:$k4}] }] } }"# }
+                   else { r#"mutate { sys.Room{ id:$room authorisations:[{ name:"g2" rights:[{entity:"ns.E1" mutate_self:true mutate_all:true}] user_admin:[{verif_key:$k4}] users:[{verif_key:$k3}] }] } }"# };
+        let second = b.db.mutate_raw(txt2, Some(p)).await;
+        let live_b = wait_room(&mut b.rx, &rid, 200).await;
+        let n3 = strip(b.db.get_room_node(rid).await.unwrap().unwrap());
+        let old = ctx.rm_of(&strip(f.db.get_room_node(rid).await.unwrap().unwrap()));
+        let cand = ctx.rm_of(&n3);
+        let probes: Vec<(u64, u64, i64)> = vec![(a.key, 1, d + 9000), (b.key, 1, d + 9000), (b.key, 1, d + 1000), (2, 1, d + 9000), (3, 1, d + 9000), (3, 1, d + 3000), (4, 1, d + 9000)];
+        verif_clock::set(d + 8000);
+        let mut obs = import_obs(ctx, f, n3.clone(), &rid, &probes, held).await;
+        obs.extend(import_obs(ctx, g, n3, &rid, &probes, None).await);
+        let live_agrees = live_b.map(|r| decisions(ctx, &r, &probes));
+        out.push(Case { kind: format!("jump_e2e:{}", kind), coq: format!("CJump {} {} {}", rm_coq(&old), rm_coq(&cand), probes_coq(&probes)),
+            meta: json!({"second_author_mutation_ok": second.is_ok(), "second_author_error": second.as_ref().err().map(|e| e.to_string()), "jump": obs[0], "live_room_of_second_author": live_agrees}), obs });
+    }
 }
 
 /// LOAD_QUERY result of an instance, split by room, each room loaded on its own by load_json
@@ -337,6 +533,23 @@ async fn main() {
             pend.push(p);
         }
     }
+    // ---- bursts of room mutations in flight together (spawned calls, one stream)
+    let bp: fn(u64, i64) -> Vec<(u64, u64, i64)> = |a, d| vec![(a, 1, d + 1), (2, 1, d + 1), (9, 1, d + 1), (9, 1, d - 1), (12, 2, d), (16, 1, d + 5), (20, 1, d + 5), (21, 1, d + 5)];
+    let mut tb = d + 400_000;
+    for (name, n, stream) in [("burst:spawned_12", 12u64, false), ("burst:spawned_4", 4, false), ("burst:stream_12", 12, true)] {
+        for _ in 0..scale(2, 6) {
+            tb += 20_000;
+            let p = run_burst(&mut ctx, &mut a, &mut f, name, n, stream, bp, tb).await;
+            pend.push(p);
+        }
+    }
+    // ---- a peer that skipped versions, on real instances with two authors
+    let mut g = start_inst(&mut ctx, "g").await;
+    jump_e2e(&mut ctx, &mut a, &mut b, &mut f, &mut g, &mut out, tb + 500_000).await;
+    // ---- the same on generated multi-author histories (prepare_room_node on validly signed rows)
+    let mut jstats: HashMap<String, u64> = HashMap::new();
+    jump_cases(&mut rng, &mut ctx, &mut out, scale(45, 500), &mut jstats);
+    eprintln!("c10 jumps: {:?}", jstats);
     let n = scale(110, 1500);
     for i in 0..n {
         let mut r = rng.fork();
@@ -360,19 +573,21 @@ async fn main() {
         let mut obs = p.head.clone();
         obs.extend(part(&ra));
         obs.extend(p.fresh.clone());
-        obs.extend(p.chain.clone());
-        obs.extend(p.chain_dec.clone());
-        if p.chain.iter().all(|v| *v <= 1) { obs.extend(part(&rb)); }
+        if !p.burst {
+            obs.extend(p.chain.clone());
+            obs.extend(p.chain_dec.clone());
+            if p.chain.iter().all(|v| *v <= 1) { obs.extend(part(&rb)); }
+        }
         let reload_ok = matches!(ra.get(&id), Some(Some(_)));
         *dist.entry(format!("reload_ok={} fresh={}", reload_ok, p.fresh[0])).or_insert(0) += 1;
         let mut meta = p.meta.clone();
         meta["reload_ok"] = json!(reload_ok);
-        out.push(Case { kind: p.kind, coq: format!("CHist {} {} {}", gn(p.author), steps_coq(&p.steps, &p.ranks, &p.gm), probes_coq(&p.probes)), obs, meta });
+        out.push(Case { kind: p.kind, coq: format!("{} {} {} {}", if p.burst { "CBurst" } else { "CHist" }, gn(p.author), steps_coq(&p.steps, &p.ranks, &p.gm), probes_coq(&p.probes)), obs, meta });
     }
     eprintln!("c10 distribution: {:?}", dist);
     verif_clock::clear();
-    drop(a); drop(b); drop(f);
+    drop(a); drop(b); drop(f); drop(g);
     tokio::time::sleep(std::time::Duration::from_millis(300)).await;
-    for dname in ["a", "b", "f", "restart"] { let _ = std::fs::remove_dir_all(format!("{}/C10/{}", work_dir(), dname)); }
+    for dname in ["a", "b", "f", "g", "restart"] { let _ = std::fs::remove_dir_all(format!("{}/C10/{}", work_dir(), dname)); }
     out.finish();
 }
